@@ -9,16 +9,27 @@ pub mod ops;
 pub mod src;
 
 pub mod rec {
-    use std::sync::{Mutex, OnceLock};
+    use std::sync::{
+        Mutex, OnceLock,
+        atomic::{AtomicBool, AtomicU64, Ordering},
+    };
 
     #[derive(Clone, Debug)]
     pub struct RawEvent {
         pub site: &'static str,
         pub a: u64,
         pub b: u64,
+        /// recorded on the thread that installed the recorder (the driver thread)
+        pub main: bool,
     }
 
     static REC: OnceLock<Mutex<Vec<RawEvent>>> = OnceLock::new();
+    static MAIN: OnceLock<std::thread::ThreadId> = OnceLock::new();
+    /// steering: while set, a pool thread that reaches `blocking.done` (its job is finished, the
+    /// completion entry not yet sent) spins until the harness opens the gate
+    static HOLD: AtomicBool = AtomicBool::new(false);
+    static PARKED: AtomicU64 = AtomicU64::new(0);
+    static GATE_TIMEOUTS: AtomicU64 = AtomicU64::new(0);
 
     fn state() -> &'static Mutex<Vec<RawEvent>> {
         REC.get_or_init(|| Mutex::new(Vec::new()))
@@ -27,15 +38,44 @@ pub mod rec {
     fn sink(site: &'static str, a: u64, b: u64) {
         // only the sites this package looks at (keeps the log small)
         match site {
-            "op.alloc" | "op.free" | "op.result" | "iour.cqe" => {}
+            "op.alloc" | "op.free" | "op.result" | "iour.cqe" | "blocking.dispatch" | "blocking.start" | "blocking.done" => {}
             _ => return,
         }
-        let mut s = state().lock().unwrap_or_else(|e| e.into_inner());
-        s.push(RawEvent { site, a, b });
+        let main = MAIN.get().map(|m| *m == std::thread::current().id()).unwrap_or(false);
+        {
+            let mut s = state().lock().unwrap_or_else(|e| e.into_inner());
+            s.push(RawEvent { site, a, b, main });
+        }
+        if site == "blocking.done" && !main && HOLD.load(Ordering::Acquire) {
+            PARKED.fetch_add(1, Ordering::AcqRel);
+            // the gate opens by itself after a while: if the proactor's drop waits for this job (a repaired
+            // driver) the harness thread cannot open it
+            let t0 = std::time::Instant::now();
+            while HOLD.load(Ordering::Acquire) {
+                std::hint::spin_loop();
+                if t0.elapsed() > std::time::Duration::from_secs(3) {
+                    GATE_TIMEOUTS.fetch_add(1, Ordering::AcqRel);
+                    HOLD.store(false, Ordering::Release);
+                }
+            }
+        }
     }
 
     pub fn install() {
+        let _ = MAIN.set(std::thread::current().id());
         compio_log::verif::set_sink(Some(sink));
+    }
+
+    pub fn hold(on: bool) {
+        HOLD.store(on, Ordering::Release);
+    }
+
+    pub fn gate_timeouts() -> u64 {
+        GATE_TIMEOUTS.load(Ordering::Acquire)
+    }
+
+    pub fn parked() -> u64 {
+        PARKED.load(Ordering::Acquire)
     }
 
     pub fn mark() -> usize {
